@@ -59,6 +59,10 @@ def drop (st : DirStream) : Prog Unit := Prog.inDrop st.dropBody
 
 end DirStream
 
+def liftE {α : Type} : Except Err α → Prog α
+  | .ok a => pure a
+  | .error e => .fail e
+
 /-- run `body` on a clone `st0` of a stream; the clone (in its final state if `body` succeeded) is dropped when the
     scope is left, normally or by `?` -/
 def withStream {α : Type} (st0 : DirStream) (body : Prog (α × DirStream)) : Prog α := do
@@ -379,9 +383,16 @@ def createDir (env : Env) : Nat → DirStream → String → Prog DirStream
       let r ← checkForExistence env d name (some true)
       match r with
       | .short sn => do
+        liftE (Names.validateLongName name)
         let cluster ← allocClusterFs none true
         let sfn ← createSfnEntry sn ATTR_DIRECTORY (some cluster)
-        let entry ← writeEntry d name sfn
+        -- the cluster is given back if the entry cannot be written
+        let r ← Prog.attempt (writeEntry d name sfn)
+        let entry ← (match r with
+          | .ok entry => pure entry
+          | .error err => do
+            freeClusterChain cluster
+            .fail err)
         let dir ← entry.toDir fs
         -- `dir` is dropped if one of the two dot entries cannot be written
         Prog.finallyDrop (do
@@ -435,9 +446,11 @@ def remove (env : Env) : Nat → DirStream → String → Prog Unit
         | none => pure ()
         deleteEntry d e
 
-/-- `rename_internal`: the source slots are deleted BEFORE the new name is validated and written (finding F1) -/
+/-- `rename_internal`: the new name is validated before anything is changed; the source slots are deleted before
+    the new entry is written (if that fails for lack of space the source is lost: finding F1b) -/
 def renameInternal (env : Env) (d : DirStream) (srcName : String) (dst : DirStream) (dstName : String) : Prog Unit := do
   let e ← findEntry env d srcName none
+  liftE (Names.validateLongName dstName)
   let r ← checkForExistence env dst dstName none
   match r with
   | .entry dstE => if e.entryPos = dstE.entryPos then pure () else .fail .alreadyExists
